@@ -152,6 +152,8 @@ pub fn run_bytes(s: &mut Session, u: &mut U) {
                     c.nums[2] = u.u32();
                     let dl = (u.byte() % 40) as usize;
                     c.lists[0] = u.take(dl);
+                } else if (c.req && c.id == 16) || (!c.req && c.id == 3) {
+                    let mut uu = u.take(16); uu.resize(16, 0); c.lists[0] = uu;
                 } else if c.req { c.nums[0] = u.byte() as u32; } else if c.nums.len() > 1 { c.nums[1] = u.byte() as u32; }
                 let n = expected_len(&c).unwrap_or(12);
                 let cap = match k >> 5 { 0 | 1 | 2 | 3 => n, 4 => n + 1, 5 => n + 7, 6 => n.saturating_sub(1), _ => (u.byte() as usize) % 64 };
